@@ -8,7 +8,9 @@ arbitrary, the source at ANY address).  `m` = number of characters the call woul
 
 * `*_C07_exact` — ESOVRLP is returned EXACTLY when the `c = min(m + 1, dmax)` cells starting at the two pointers — the
   cells the copy reads and writes, terminator included, capped by `dmax` — meet; then one handler call, dest cleared,
-  nothing outside dest touched (`OvrlpPost`).
+  nothing outside dest touched (`OvrlpPost`).  In particular a source that lies INSIDE the `dmax` cells of dest but
+  behind the cells copied (`m < g < dmax`) is accepted; with null-slack it is then zeroed by the fill (`CpyC06`: zeros up
+  to `dmax`) — the listed `slack-fill-destroys-source` (`strcpy_s_C07_witness` in `Props/C07.lean`).
 * `strncpy_s_C07_disjoint_*` / `wcsncpy_s_C07_disjoint_*` — when `slen = m` runs out, the last of these source cells,
   `src + m`, is NOT read; operands that are disjoint as objects (the `dmax` cells of dest / the source cells read) are
   rejected EXACTLY when `slen = m`, `src + m = dest` and `m < dmax` (`*_iff`): the listed deviation
